@@ -11,6 +11,7 @@ import (
 
 	logging "github.com/ipfs/go-log/v2"
 
+	"verif/harness/internal/c01"
 	"verif/harness/internal/c05"
 	"verif/harness/internal/c09"
 	"verif/harness/internal/c10"
@@ -94,6 +95,9 @@ func main() {
 			*seed = -1
 		}
 		err = c12.Run(d, res, *seed, thorough, corpus)
+	case "C01":
+		res.Rule = "25 real signatures (0..5 params, with/without context, four result shapes, raw params, custom (Un)Marshaler, custom encoder/decoder pair) x argument and result values from the property's classes (nil pointers, nil vs empty slices/maps, integer extremes, -0, 1e308, HTML/control/multi-byte strings, byte slices, raw JSON, unserialisable values) x {custom, http, ws} x 5 formatters; distinct = (method, transport, formatter, values, class); non-trivial = the handler was reached"
+		err = c01.Run(d, res, *seed, n(4000, 60000))
 	case "C05":
 		res.Rule = "backoff: grid of (minDelay, maxDelay) x attempts -2..N x repetitions (implementation's own jitter); distinct = (min, max, attempt); non-trivial = delay still growing (or every 50th capped attempt)"
 		err = c05.RunBackoff(d, res, thorough, corpus)
